@@ -212,6 +212,72 @@ pub fn oracle(req: &Req, got: &Resp) -> Result<(), String> {
             }
             Ok(())
         }
+        "gp.scalar_extras" => {
+            let s = need!(can(&a[0]));
+            if a[1].len() != 16 { return if rej { Ok(()) } else { Err("length".into()) }; }
+            if rej || b.len() != 32 * 4 + 2 + 32 + 33 + 33 { return Err(format!("gp.scalar_extras: {}", got.short())); }
+            let v = u128::from_le_bytes(a[1][..].try_into().unwrap());
+            let s3 = s.mul(&s).mul(&s);
+            let vs = Sc::from_u256(&U256::from_u128(v));
+            if rd(b, 0) != s3 || rd(b, 32) != s3 || rd(b, 64) != s3 { return Err("Field::cube / pow / pow_vartime with exponent 3".into()); }
+            if rd(b, 96) != s.pow(&U256::from_u128(v)) { return Err("Field::pow_vartime with a 128-bit exponent".into()); }
+            if b[128] != s.is_zero() as u8 || b[129] != 1 - (a[0][0] & 1) { return Err("is_zero_vartime / is_even".into()); }
+            if rd(b, 130) != vs { return Err("PrimeField::from_u128".into()); }
+            if b[162] != 1 || rd(b, 163) != vs { return Err("PrimeField::from_str_vartime of a decimal string".into()); }
+            // a leading zero is refused by ff's parser unless the string is exactly "0"
+            let lead_ok = false;
+            if (b[195] == 1) != lead_ok && !(v == 0 && b[195] == 0) { return Err("PrimeField::from_str_vartime accepted a decimal string with a leading zero".into()); }
+            Ok(())
+        }
+        "gp.point_extras" => {
+            let (p, q) = (need!(ptab(&a[0])), need!(ptab(&a[1])));
+            if rej || b.len() != 1 + 33 + 3 + 32 * 3 + 3 + 33 + 1 { return Err(format!("gp.point_extras: {}", got.short())); }
+            let c = a[2][0] & 1;
+            let (sa, sb) = (p.mul8(), q.mul8());
+            if b[0] != p.mul8().is_identity() as u8 { return Err("CofactorGroup::is_small_order(EdwardsPoint)".into()); }
+            let tf = p.is_torsion_free();
+            if (b[1] == 1) != tf || (tf && b[2..34] != p.compress()[..]) { return Err("CofactorGroup::into_subgroup: is_some / value".into()); }
+            let eq = (sa == sb) as u8;
+            if b[34] != eq || b[35] != eq || b[36] != 1 { return Err("SubgroupPoint ct_eq / ==".into()); }
+            let sel = if c == 1 { &sb } else { &sa };
+            if b[37..69] != sel.compress()[..] { return Err("SubgroupPoint::conditional_select".into()); }
+            let idb = Aff::IDENTITY.compress();
+            if b[69..101] != idb[..] { return Err("SubgroupPoint::default() is not the identity".into()); }
+            if b[101..133] != idb[..] { return Err("SubgroupPoint::zeroize() does not leave the identity".into()); }
+            if b[133] != 1 || b[134] != sa.is_identity() as u8 || b[135] != sa.is_identity() as u8 { return Err("Group::is_identity on SubgroupPoint / is_small_order of a subgroup point".into()); }
+            let r = Aff::basepoint().mul(&U256::from_u128(a[2][0] as u128));
+            if b[136] != 1 || b[137..169] != rist::encode(&r)[..] { return Err("RistrettoPoint::into_subgroup".into()); }
+            if b[169] != r.is_identity() as u8 { return Err("CofactorGroup::is_small_order(RistrettoPoint) (cofactor 1: only the identity has small order)".into()); }
+            Ok(())
+        }
+        "gp.random_points" => {
+            if rej || b.len() != 96 { return Err(format!("gp.random_points: {}", got.short())); }
+            let d = &a[0];
+            let byte = |i: usize| if d.is_empty() { 0 } else { d[i % d.len()] };
+            // Edwards: 32-byte chunks until one decodes to a non-identity point
+            let mut want_e = None;
+            for k in 0..64 {
+                let mut c = [0u8; 32];
+                for i in 0..32 { c[i] = byte(32 * k + i); }
+                if let Some(p) = Aff::decompress(&c) { if !p.is_identity() { want_e = Some(p); break; } }
+            }
+            let want_e = want_e.ok_or("model: the generator must provide a decodable chunk")?;
+            if b[..32] != want_e.compress()[..] { return Err("<EdwardsPoint as Group>::random: not the first decodable non-identity chunk of the RNG stream".into()); }
+            // Subgroup: 64-byte chunks reduced mod l until non-zero; s*B
+            let mut want_s = None;
+            for k in 0..64 {
+                let mut c = [0u8; 64];
+                for i in 0..64 { c[i] = byte(64 * k + i); }
+                let s = Sc::from_bytes_mod_order_wide(&c);
+                if !s.is_zero() { want_s = Some(s); break; }
+            }
+            let want_s = want_s.ok_or("model: the generator must provide a non-zero chunk")?;
+            if b[32..64] != Aff::basepoint().mul(&want_s.0).compress()[..] { return Err("<SubgroupPoint as Group>::random: not generator * (first non-zero wide-reduced chunk)".into()); }
+            let mut c = [0u8; 64];
+            for i in 0..64 { c[i] = byte(i); }
+            if b[64..96] != rist::encode(&rist::from_uniform_bytes(&c))[..] { return Err("<RistrettoPoint as Group>::random differs from from_uniform_bytes of the first 64 RNG bytes".into()); }
+            Ok(())
+        }
         "gp.cofactor" => {
             let p = need!(ptab(&a[0]));
             if rej || b.len() != 32 + 2 + 32 + 1 + 32 * 6 { return Err(format!("gp.cofactor: {}", got.short())); }
